@@ -24,7 +24,7 @@ RULE = (
     "empty and non-ASCII strings, control characters, negative and 10^30 type numbers, node 255); whatever registry results is saved to a "
     "real file and loaded into an empty registry of a second gateway. direct: a registry constructed from schema-valid values (ids 0-255, "
     "any-int types, arbitrary text, battery 0-100, value-type keys incl. negatives) is saved and loaded, and also rendered in the legacy "
-    "pymysensors layout (sensor_id/type/id, null for empty sketch fields and for the gateway type) and loaded. Oracle: load never rejects a "
+    "pymysensors layout (sensor_id/type/id, null for empty sketch fields and for the gateway type) and loaded. Enumerated: registries whose file is 1-4 MiB, and the round trip of non-ASCII text in a child process whose locale encoding is ASCII (LANG=C, UTF-8 mode off). Oracle: load never rejects a "
     "file save wrote; deep equality of all listed attributes before save and after load; legacy and native loads are equal. Non-trivial = "
     ">= 1 child with >= 1 value and a non-default attribute, or a boundary payload reached the registry; distinct = distinct case JSON."
 )
@@ -100,6 +100,71 @@ def strategy(tier: str):
     return st.one_of(hist, hist, direct)
 
 
+def enumerate_cases(tier: str):
+    # registries whose file is far larger than any I/O buffer (save and load must agree on the whole file)
+    for nodes, size in ((20, 60000), (6, 600000)) if tier == "quick" else ((20, 60000), (6, 600000), (40, 120000), (254, 5000)):
+        reg = {
+            str(i): {"node_id": i, "node_type": 17, "protocol_version": "2.2.0", "sketch_name": "big", "sketch_version": "1", "battery_level": 7, "heartbeat": 0,
+                     "sleeping": False, "children": {"1": {"child_id": 1, "child_type": 36, "description": "", "values": {"47": "v" * size}}}}
+            for i in range(1, nodes + 1)
+        }
+        yield {"kind": "direct", "registry": reg, "legacy_nulls": False}
+    # the same round trip in a process whose locale encoding is ASCII (a service started with LANG=C)
+    for text in ("Küche °C", "温度センサー", "emoji😀", "plain"):
+        yield {"kind": "locale", "text": text}
+
+
+LOCALE_CHILD = r"""
+import asyncio, json, sys
+from aiomysensors.gateway import Config, Gateway
+from aiomysensors.model.node import Node
+from aiomysensors.transport import Transport
+class T(Transport):
+    async def connect(self): pass
+    async def disconnect(self): pass
+    async def read(self): raise EOFError
+    async def write(self, m): pass
+path, text = sys.argv[1], sys.argv[2]
+async def main():
+    g = Gateway(T(), Config(persistence_file=path))
+    g.nodes[1] = Node(1, 17, "2.0", sketch_name=text, sketch_version=text)
+    g.nodes[1].add_child(1, 6, text)
+    g.nodes[1].children[1].values[47] = text
+    await g.persistence.save()
+    h = Gateway(T(), Config(persistence_file=path))
+    await h.persistence.load()
+    n = h.nodes[1]
+    got = [n.sketch_name, n.sketch_version, n.children[1].description, n.children[1].values[47]]
+    print(json.dumps({"ok": got == [text] * 4, "got": got}))
+try:
+    asyncio.run(main())
+except BaseException as err:
+    print(json.dumps({"ok": False, "error": repr(err)}))
+"""
+
+
+def _run_locale(case: dict) -> Outcome:
+    import subprocess
+    import sys
+
+    scratch = tempfile.mkdtemp(prefix="vf-c13-", dir=SCRATCH_BASE)
+    try:
+        env_vars = {k: v for k, v in os.environ.items() if not k.startswith("LC_") and k not in ("LANG", "LANGUAGE", "PYTHONUTF8", "PYTHONIOENCODING")}
+        env_vars.update(LC_ALL="C", LANG="C", PYTHONUTF8="0", PYTHONCOERCECLOCALE="0")
+        proc = subprocess.run([sys.executable, "-B", "-c", LOCALE_CHILD, os.path.join(scratch, "p.json"), case["text"]], capture_output=True, text=True, env=env_vars, encoding="utf-8", errors="replace")
+        line = (proc.stdout.strip().splitlines() or ["{}"])[-1]
+        try:
+            res = json.loads(line)
+        except ValueError:
+            res = {"ok": False, "error": (proc.stdout + proc.stderr)[-300:]}
+    finally:
+        shutil.rmtree(scratch, ignore_errors=True)
+    classes = ("kind=locale",)
+    if not res.get("ok"):
+        return fail("ascii-locale:roundtrip", f"save+load of text {case['text']!r} in a process with an ASCII locale encoding: {res}", classes=classes)
+    return Outcome(ok=True, nontrivial=any(ord(c) > 127 for c in case["text"]), classes=classes)
+
+
 def _legacy(snapshot: dict, nulls: bool) -> dict:
     out = {}
     for key, node in snapshot.items():
@@ -140,6 +205,8 @@ def _interesting(snapshot: dict) -> bool:
 
 
 def run_case(case: dict) -> Outcome:
+    if case["kind"] == "locale":
+        return _run_locale(case)
     scratch = tempfile.mkdtemp(prefix="vf-c13-", dir=SCRATCH_BASE)
     path = os.path.join(scratch, "persistence.json")
     info = {"boundary": False, "snapshot": {}}
